@@ -214,6 +214,13 @@ func (i *mapInjector) setElem(_ int, key, value interface{}, keyWasNull, valueWa
 			return errWrongElementType("map value", valueType, newValue.Type())
 		}
 	}
+	// a key held in an interface-typed map key must be hashable, otherwise SetMapIndex panics (e.g. blob keys
+	// decoded as []byte into a map[interface{}]interface{})
+	if dynamicKey := newKey; dynamicKey.Kind() == reflect.Interface && !dynamicKey.IsNil() {
+		if dynamicKey = dynamicKey.Elem(); !dynamicKey.Type().Comparable() {
+			return errWrongElementType("map key", keyType, dynamicKey.Type())
+		}
+	}
 	i.dest.SetMapIndex(newKey, newValue)
 	return nil
 }
